@@ -203,6 +203,8 @@ macro_rules! for_all_n {
             5 => $f::<$g, 5>($ctx, $idx),
             8 => $f::<$g, 8>($ctx, $idx),
             13 => $f::<$g, 13>($ctx, $idx),
+            17 => $f::<$g, 17>($ctx, $idx),
+            33 => $f::<$g, 33>($ctx, $idx),
             _ => unreachable!(),
         }
     };
@@ -210,7 +212,7 @@ macro_rules! for_all_n {
 
 pub fn run(ctx: &mut Ctx) {
     let reps = if ctx.thorough() { 300 } else { 8 };
-    let ns = [1usize, 2, 3, 5, 8, 13];
+    let ns = [1usize, 2, 3, 5, 8, 13, 17, 33];
     let mut idx = 0;
     for rep in 0..reps {
         for &n in ns.iter() {
